@@ -53,7 +53,9 @@ THEOREMS = [
 RULE = ("cases: 1..4 samples (ploidy 1..6) with posteriors over 1..6 distinct genotypes drawn from a pool of 2..6 haplotypes "
         "(0..3 SNVs; the reference haplotype present in ~75 % of the pools), probabilities dyadic (k/64) or general (k/N), x thresholds "
         "{0, 1, 0.2, 0.01, uniform, every distinct occurrence value, occurrence +- 1e-12 (float-margin, counted only)}; per sample "
-        "the label map, GT, AFP/AOP and GP; plus the calls recorded inside `mchap assemble` runs on synthetic data. Non-trivial: "
+        "the label map, GT, AFP/AOP and GP; every tenth instance has 11..18 haplotypes over 4..8 samples (two-digit allele numbers); plus the calls "
+        "recorded inside `mchap assemble` runs on synthetic data (1 / 2 / 3 / 5 samples, a sample without reads, thresholds 0 / default / 0.2..1.0, "
+        "varying --report subsets) where every printed GT / AFP / AOP / GP is compared with what the recorded posteriors imply. Non-trivial: "
         ">= 2 samples or >= 2 non-reference haplotypes, and a threshold that excludes at least one observed haplotype. "
         "Distinct by request line.")
 
